@@ -877,4 +877,379 @@ Proof.
   - clear. induction p using node_ind2 with (P0 := fun ns => all_nodess (fun _ => True) ns); cbn; auto.
 Qed.
 
+
+(* ---- scopes are a stack: walking a node leaves the enclosing scopes in place
+        and only adds symbols to the current one ---- *)
+Definition grow (s s' : st) : Prop :=
+  forall top rest, scopes s = top :: rest -> exists ext, scopes s' = (ext ++ top) :: rest.
+Lemma grow_refl s : grow s s.
+Proof. intros top rest H. exists []. exact H. Qed.
+Lemma grow_same s s' : scopes s' = scopes s -> grow s s'.
+Proof. intros E top rest H. exists []. rewrite E. exact H. Qed.
+Lemma grow_trans a b c : grow a b -> grow b c -> grow a c.
+Proof.
+  intros H1 H2 top rest H. destruct (H1 _ _ H) as [e1 E1]. destruct (H2 _ _ E1) as [e2 E2].
+  exists (e2 ++ e1). rewrite E2, app_assoc. reflexivity.
+Qed.
+Lemma grow_fold {A} (f : st -> A -> st) (l : list A) :
+  (forall a x, grow a (f a x)) -> forall s, grow s (fold_left f l s).
+Proof.
+  intros H. induction l as [|x l IH]; intros s; cbn; [apply grow_refl|].
+  eapply grow_trans; [apply H|apply IH].
+Qed.
+
+Lemma grow_set_top s y : grow s (set_top s (y :: top_scope s)).
+Proof. intros top rest H. exists [y]. unfold set_top, top_scope. cbn. rewrite H. reflexivity. Qed.
+
+Lemma grow_declare s name k ar : grow s (fst (declare s name k ar)).
+Proof.
+  unfold declare, insert. destruct (find_name _ _); cbn [fst]; [apply grow_same; reflexivity|].
+  intros top rest H. exists [{| sy_id := nid s; sy_name := name; sy_kind := k; sy_arity := ar |}].
+  unfold set_top, top_scope. cbn. rewrite H. reflexivity.
+Qed.
+
+Lemma grow_add_groups gs : forall i s, grow s (add_groups gs i s).
+Proof.
+  induction gs as [|keys r IH]; intros i s; cbn [add_groups]; [apply grow_refl|].
+  eapply grow_trans; [|apply IH].
+  apply (grow_trans _ (set_nid s (nid s + 1))); [apply grow_same; reflexivity|]. apply grow_fold.
+  intros a key. unfold insert. destruct (find_name _ _); [apply grow_same; reflexivity|].
+  apply grow_set_top.
+Qed.
+
+Lemma grow_post_pattern e s : grow s (post_pattern re_caps max_re e s).
+Proof.
+  unfold post_pattern. pose proof (same_pat_eval e s) as (H & _).
+  destruct (pat_eval e s) as [s1 p]. cbn in H. destruct p; [apply grow_same, H|].
+  eapply grow_trans; [apply grow_same, H|].
+  unfold check_regex. destruct (max_re <? _); [apply grow_same; reflexivity|].
+  destruct (re_caps _); [|apply grow_same; reflexivity].
+  destruct (nosym s1); [apply grow_refl|apply grow_add_groups].
+Qed.
+
+Definition is_push (n : node) : bool :=
+  match n with NStmtList _ | NCond _ _ _ | NDecoStmt _ _ => true | _ => false end.
+
+Lemma pre_scopes n s s1 go :
+  NameCheck.pre n s = (s1, go) ->
+  if go && is_push n then exists new, scopes s1 = new :: scopes s else grow s s1.
+Proof.
+  destruct n; cbn [NameCheck.pre is_push]; rewrite ?andb_false_r, ?andb_true_r;
+    try (intros H; injection H as <- <-; try apply grow_refl; try (apply grow_same; reflexivity); fail).
+  - intros H; injection H as <- <-. exists []. reflexivity.
+  - intros H; injection H as <- <-. exists []. reflexivity.
+  - pose proof (grow_declare s name KVar nkeys) as H. destruct (declare s name KVar nkeys) as [s2 ok].
+    cbn in H. destruct ok; intros E; injection E as <- <-; [exact H|].
+    eapply grow_trans; [exact H|apply grow_same; reflexivity].
+  - pose proof (grow_declare s name KPattern 0) as H. destruct (declare s name KPattern 0) as [s2 ok].
+    cbn in H. destruct ok; intros E; injection E as <- <-; [exact H|].
+    eapply grow_trans; [exact H|apply grow_same; reflexivity].
+  - pose proof (grow_declare s name KDeco 0) as H. destruct (declare s name KDeco 0) as [s2 ok].
+    cbn in H. destruct ok; intros E; injection E as <- <-;
+      (eapply grow_trans; [exact H|apply grow_same; reflexivity]).
+  - destruct (lookup name KDeco (scopes s)); [destruct (assoc _ _)|]; intros E; injection E as <- <-; cbn.
+    + eexists. reflexivity.
+    + apply grow_same. reflexivity.
+    + apply grow_same. reflexivity.
+  - destruct (resolve_id s name); intros E; injection E as <- <-; apply grow_same; reflexivity.
+  - destruct (lookup name KCapref (scopes s)); intros E; injection E as <- <-; apply grow_same; reflexivity.
+  - destruct f; intros E; injection E as <- <-; try apply grow_refl. apply grow_same. reflexivity.
+Qed.
+
+Lemma post_scopes n s :
+  if is_push n then scopes (post n s) = tl (scopes s) else grow s (post n s).
+Proof.
+  destruct n; cbn [NameCheck.post is_push]; try apply grow_refl.
+  - cbn. f_equal. apply (same_check_symtab s).
+  - cbn. f_equal. apply (same_check_symtab s).
+  - pose proof (same_pat_eval n s) as (H & _). destruct (pat_eval n s) as [s1 pat]. cbn in H.
+    destruct pat; [apply grow_same, H|]. destruct (find_name _ _); apply grow_same; cbn; exact H.
+  - destruct (decos s) as [|d r]; [apply grow_refl|].
+    destruct (find_name _ _); destruct d; apply grow_same; reflexivity.
+  - reflexivity.
+  - destruct (decos s) as [|d r]; [apply grow_same; reflexivity|].
+    destruct d; apply grow_same; reflexivity.
+  - destruct n; try apply grow_refl.
+    destruct (resolve_id s name) as [y|]; [|apply grow_refl].
+    destruct (sy_kind y);
+      try (destruct (sy_arity y =? 0); [destruct (nlen ix =? 0)|destruct (sy_arity y =? nlen ix)];
+           apply grow_same; reflexivity).
+    eapply grow_trans; [|apply grow_post_pattern]. apply grow_same. reflexivity.
+  - destruct o; try apply grow_refl; destruct (is_zero_lit n2 && syn_int n1); apply grow_same; reflexivity.
+  - apply grow_post_pattern.
+  - destruct f; try apply grow_refl. apply grow_same. reflexivity.
+Qed.
+
+Lemma grow_walk_both :
+  (forall n s, grow s (walk n s)) /\ (forall ns s, grow s (walks ns s)).
+Proof.
+  apply node_nodes_ind; intros;
+    try (rewrite walk_eq;
+         match goal with |- context [NameCheck.pre ?n ?s] =>
+           destruct (NameCheck.pre n s) as [s1 go] eqn:Ep; apply pre_scopes in Ep;
+           pose proof (post_scopes n (body re_caps max_re n s1)) as Hq;
+           destruct go; cbn [negb andb is_push] in *; [cbn [body] in *|try exact Ep]
+         end);
+    try apply grow_refl;
+    try (eapply grow_trans; [exact Ep|]; eapply grow_trans; [|exact Hq]; eauto using grow_trans, grow_refl; fail).
+  all: try (rewrite walks_cons; eauto using grow_trans; fail).
+  all: destruct Ep as [new En]; intros top rest Hs;
+       match type of Hq with scopes _ = tl (scopes ?b) =>
+         assert (grow s1 b) as G by eauto 6 using grow_trans, grow_refl end;
+       destruct (G new (scopes s) En) as [ext Ee]; exists []; rewrite Hq, Ee; cbn; exact Hs.
+Qed.
+Definition grow_walk := proj1 grow_walk_both.
+Definition grow_walks := proj2 grow_walk_both.
+
+Lemma find_name_app_some x ext top : find_name x top <> None -> find_name x (ext ++ top) <> None.
+Proof.
+  intros H. induction ext as [|y r IH]; cbn; [exact H|]. destruct (bytes_eqb (sy_name y) x); [discriminate|exact IH].
+Qed.
+
+Lemma in_find_name x y sc : In y sc -> sy_name y = x -> find_name x sc <> None.
+Proof.
+  induction sc as [|z r IH]; cbn; [tauto|]. intros [->|Hi] Hn.
+  - rewrite Hn, bytes_eqb_refl. discriminate.
+  - destruct (bytes_eqb (sy_name z) x); [discriminate|auto].
+Qed.
+
+(* a declaration of the name x with kind k *)
+Inductive declares (x : bytes) : kind -> node -> Prop :=
+| decl_var a : declares x KVar (NVarDecl x a)
+| decl_const q : declares x KPattern (NConst x q)
+| decl_deco b : declares x KDeco (NDecoDecl x b).
+
+Lemma declare_sym s x k ar top rest :
+  scopes s = top :: rest ->
+  let r := declare s x k ar in
+  (snd r = false /\ find_name x top <> None) \/
+  (snd r = true /\ exists y, scopes (fst r) = (y :: top) :: rest /\ sy_name y = x /\ sy_kind y = k).
+Proof.
+  intros Hs. unfold declare, insert. cbn [sy_name].
+  change (top_scope (set_nid s (nid s + 1))) with (top_scope s). unfold top_scope. rewrite Hs. cbn [hd].
+  destruct (find_name x top) eqn:E; cbn.
+  - left. split; [reflexivity|discriminate].
+  - right. split; [reflexivity|]. eexists. split; [unfold set_top; cbn; rewrite Hs; reflexivity|]. split; reflexivity.
+Qed.
+
+Lemma decl_sym x k d s top rest :
+  declares x k d -> scopes s = top :: rest ->
+  errs (walk d s) <> [] \/
+  exists y ext, scopes (walk d s) = (ext ++ y :: top) :: rest /\ sy_name y = x /\ sy_kind y = k.
+Proof.
+  intros Hd Hs. destruct Hd; rewrite walk_eq; cbn [NameCheck.pre].
+  - destruct (declare_sym s x KVar a top rest Hs) as [[Hf _]|[Ht (y & Hy & Hn & Hk)]];
+      destruct (declare s x KVar a) as [s1 ok]; cbn [fst snd] in *; subst ok; cbn [negb].
+    + left. discriminate.
+    + right. exists y, []. cbn. auto.
+  - destruct (declare_sym s x KPattern 0 top rest Hs) as [[Hf _]|[Ht (y & Hy & Hn & Hk)]];
+      destruct (declare s x KPattern 0) as [s1 ok]; cbn [fst snd] in *; subst ok; cbn [negb body].
+    + left. discriminate.
+    + right. destruct (grow_walk q s1 _ _ Hy) as [ext He].
+      pose proof (post_scopes (NConst x q) (walk q s1)) as Hq. cbn [is_push] in Hq.
+      destruct (Hq _ _ He) as [ext2 He2]. exists y, (ext2 ++ ext). rewrite He2, <- app_assoc. auto.
+  - destruct (declare_sym s x KDeco 0 top rest Hs) as [[Hf _]|[Ht (y & Hy & Hn & Hk)]];
+      destruct (declare s x KDeco 0) as [s1 ok]; cbn [fst snd] in *; subst ok; cbn [negb body].
+    + left. discriminate.
+    + right.
+      assert (scopes (set_decos s1 ([] :: decos s1)) = (y :: top) :: rest) as Hy' by exact Hy.
+      destruct (grow_walk b _ _ _ Hy') as [ext He].
+      pose proof (post_scopes (NDecoDecl x b) (walk b (set_decos s1 ([] :: decos s1)))) as Hq. cbn [is_push] in Hq.
+      destruct (Hq _ _ He) as [ext2 He2]. exists y, (ext2 ++ ext). rewrite He2, <- app_assoc. auto.
+Qed.
+
+Lemma decl_again_gen x k d s :
+  declares x k d -> find_name x (top_scope s) <> None -> errs (walk d s) <> [].
+Proof.
+  intros Hd. apply (decl_again x). destruct Hd; eauto.
+Qed.
+
+(* -- class: the same name declared twice in one block, anything in between -- *)
+Theorem redeclared_gen x k1 k2 d1 d2 before mid after p :
+  declares x k1 d1 -> declares x k2 d2 ->
+  occ anywhere (NStmtList (napp before (NCons d1 (napp mid (NCons d2 after))))) p -> check p <> [].
+Proof.
+  intros H1 H2. apply trivial_reach. intros s.
+  rewrite walk_eq. cbn [NameCheck.pre negb body]. apply ne_post.
+  rewrite walks_app, walks_cons, walks_app, walks_cons. apply ne_walks.
+  set (s0 := walks before (push_scope s [])).
+  assert (exists top rest, scopes s0 = top :: rest) as (top & rest & Hs0).
+  { destruct (grow_walks before (push_scope s []) [] (scopes s) eq_refl) as [ext He]. eauto. }
+  destruct (decl_sym x k1 d1 s0 top rest H1 Hs0) as [He|(y & ext & Hy & Hn & _)].
+  - apply ne_walk, ne_walks, He.
+  - destruct (grow_walks mid _ _ _ Hy) as [ext2 He2].
+    apply (decl_again_gen x k2); [exact H2|].
+    unfold top_scope. rewrite He2. cbn [hd]. rewrite app_assoc.
+    apply find_name_app_some. cbn. rewrite Hn, bytes_eqb_refl. discriminate.
+Qed.
+
+
+(* -- class: a declaration whose name is used nowhere -- *)
+Section Unused.
+Variable x : bytes.
+Variable k : kind.
+Hypothesis k_decl : k <> KCapref.
+
+Definition psi (u : sym) : Prop := ~ (sy_name u = x /\ sy_kind u = k).
+Definition used_ok (s : st) : Prop := Forall psi (used s).
+
+(* the name x is used nowhere: no identifier, no indexed name, no decoration *)
+Definition no_use (n : node) : Prop :=
+  match n with
+  | NId m => m <> x
+  | NIndexed _ (NId m) => m <> x
+  | NDecoStmt m _ => m <> x
+  | _ => True
+  end.
+
+Lemma used_fold {A} (f : st -> A -> st) (l : list A) :
+  (forall a y, used (f a y) = used a) -> forall s, used (fold_left f l s) = used s.
+Proof.
+  intros H. induction l as [|y l IH]; intros s; cbn; [reflexivity|]. rewrite IH. apply H.
+Qed.
+Lemma used_check_symtab s : used (check_symtab s) = used s.
+Proof.
+  unfold check_symtab. apply used_fold. intros a y.
+  destruct (is_used s y); [reflexivity|]. destruct (sy_kind y); reflexivity.
+Qed.
+Lemma used_pat_eval e : forall s0, used (fst (pat_eval e s0)) = used s0.
+Proof.
+  induction e using node_ind2 with (P0 := fun _ => True); try (intros; exact I); intros s0; cbn [pat_eval]; try reflexivity; auto.
+  - destruct (resolve_id s0 name) as [y|]; [|reflexivity].
+    destruct (sy_kind y); cbn; try reflexivity. destruct (assoc _ _); reflexivity.
+  - destruct o; cbn; try reflexivity.
+    specialize (IHe1 s0). destruct (pat_eval e1 s0) as [s1 a]. cbn in IHe1.
+    specialize (IHe2 s1). destruct (pat_eval e2 s1) as [s2 b]. cbn in *. congruence.
+Qed.
+Lemma used_add_groups gs : forall i s, used (add_groups gs i s) = used s.
+Proof.
+  induction gs as [|keys r IH]; intros i s; cbn [add_groups]; [reflexivity|].
+  rewrite IH. rewrite used_fold; [reflexivity|].
+  intros a key. destruct (insert _ _); reflexivity.
+Qed.
+Lemma used_post_pattern e s : used (post_pattern re_caps max_re e s) = used s.
+Proof.
+  unfold post_pattern. pose proof (used_pat_eval e s) as H.
+  destruct (pat_eval e s) as [s1 p]. cbn in H. destruct p; [exact H|].
+  unfold check_regex. destruct (max_re <? _); [exact H|].
+  destruct (re_caps _); [|exact H]. destruct (nosym s1); [exact H|]. rewrite used_add_groups. exact H.
+Qed.
+Lemma used_declare s name kk ar : used (fst (declare s name kk ar)) = used s.
+Proof. unfold declare. destruct (insert _ _); reflexivity. Qed.
+
+Lemma resolve_name s m y : resolve_id s m = Some y -> sy_name y = m.
+Proof.
+  unfold resolve_id. destruct (lookup m KVar (scopes s)) eqn:E.
+  - intros H. injection H as <-. apply (lookup_in _ _ _ _ E).
+  - intros H. apply (lookup_in _ _ _ _ H).
+Qed.
+
+Lemma used_pre n s : no_use n -> used_ok s -> used_ok (fst (NameCheck.pre n s)).
+Proof.
+  intros Hn Hs. destruct n; cbn [NameCheck.pre]; try exact Hs.
+  - pose proof (used_declare s name KVar nkeys) as H. destruct (declare s name KVar nkeys) as [s1 ok].
+    cbn in H. unfold used_ok. destruct ok; cbn; rewrite H; exact Hs.
+  - pose proof (used_declare s name KPattern 0) as H. destruct (declare s name KPattern 0) as [s1 ok].
+    cbn in H. unfold used_ok. destruct ok; cbn; rewrite H; exact Hs.
+  - pose proof (used_declare s name KDeco 0) as H. destruct (declare s name KDeco 0) as [s1 ok].
+    cbn in H. unfold used_ok. destruct ok; cbn; rewrite H; exact Hs.
+  - destruct (lookup name KDeco (scopes s)) as [y|] eqn:E; cbn; [|exact Hs].
+    assert (used_ok (mark_used s y)) as Hm.
+    { constructor; [|exact Hs]. intros [Hx _]. cbn in Hn.
+      destruct (lookup_in _ _ _ _ E) as (_ & Hy & _). congruence. }
+    destruct (assoc _ _); cbn; exact Hm.
+  - destruct (resolve_id s name) as [y|] eqn:E; cbn; [|exact Hs].
+    constructor; [|exact Hs]. intros [Hx _]. apply resolve_name in E. cbn in Hn. congruence.
+  - destruct (lookup name KCapref (scopes s)) as [y|] eqn:E; cbn; [|exact Hs].
+    constructor; [|exact Hs]. intros [_ Hk]. destruct (lookup_in _ _ _ _ E) as (_ & _ & Hy). congruence.
+  - destruct f; cbn; exact Hs.
+Qed.
+
+Lemma used_post n s : no_use n -> used_ok s -> used_ok (post n s).
+Proof.
+  intros Hn Hs. unfold used_ok in *. destruct n; cbn [NameCheck.post]; try exact Hs.
+  - cbn. rewrite used_check_symtab. exact Hs.
+  - cbn. rewrite used_check_symtab. exact Hs.
+  - pose proof (used_pat_eval n s) as H. destruct (pat_eval n s) as [s1 pat]. cbn in H.
+    destruct pat; [rewrite H; exact Hs|]. destruct (find_name _ _); cbn; rewrite H; exact Hs.
+  - destruct (decos s) as [|d r]; [exact Hs|].
+    destruct (find_name _ _); destruct d; exact Hs.
+  - destruct (decos s) as [|d r]; [exact Hs|]. destruct d; exact Hs.
+  - destruct n; try exact Hs.
+    destruct (resolve_id s name) as [y|] eqn:E; [|exact Hs].
+    destruct (sy_kind y);
+      try (destruct (sy_arity y =? 0); [destruct (nlen ix =? 0)|destruct (sy_arity y =? nlen ix)]; exact Hs).
+    rewrite used_post_pattern. cbn. constructor; [|exact Hs].
+    intros [Hx _]. apply resolve_name in E. cbn in Hn. congruence.
+  - destruct o; try exact Hs; destruct (is_zero_lit n2 && syn_int n1); exact Hs.
+  - rewrite used_post_pattern. exact Hs.
+  - destruct f; exact Hs.
+Qed.
+
+Lemma used_walks ns s : all_nodess no_use ns -> used_ok s -> used_ok (walks ns s).
+Proof. apply (proj2 (inv_walk_both re_caps max_re used_ok no_use used_pre used_post)). Qed.
+Lemma used_walk n s : all_nodes no_use n -> used_ok s -> used_ok (walk n s).
+Proof. apply (proj1 (inv_walk_both re_caps max_re used_ok no_use used_pre used_post)). Qed.
+
+Lemma check_symtab_err s y :
+  In y (top_scope s) -> is_used s y = false -> sy_kind y <> KCapref -> errs (check_symtab s) <> [].
+Proof.
+  intros Hi Hu Hk. unfold check_symtab.
+  assert (forall l a, (errs a <> [] \/ In y l) ->
+            errs (fold_left (fun a y0 => if is_used s y0 then a
+                                         else match sy_kind y0 with KCapref => a | _ => add_err a EUnused end) l a) <> []) as H.
+  { induction l as [|z l IH]; intros a [Ha|Hin]; cbn.
+    - exact Ha.
+    - destruct Hin.
+    - apply IH. left. destruct (is_used s z); [exact Ha|]. destruct (sy_kind z); try exact Ha; discriminate.
+    - destruct Hin as [->|Hin].
+      + apply IH. left. rewrite Hu. destruct (sy_kind y); try discriminate. congruence.
+      + apply IH. right. exact Hin. }
+  apply H. right. exact Hi.
+Qed.
+
+Lemma not_used s y : used_ok s -> sy_name y = x -> sy_kind y = k -> is_used s y = false.
+Proof.
+  intros Hs Hn Hk. unfold is_used. destruct (existsb (sym_eqb y) (used s)) eqn:E; [|reflexivity].
+  apply existsb_exists in E as (u & Hu & He). exfalso.
+  unfold used_ok in Hs. rewrite Forall_forall in Hs. apply (Hs u Hu).
+  unfold sym_eqb in He. apply andb_true_iff in He as [He Hk']. apply andb_true_iff in He as [_ Hn'].
+  apply bytes_eqb_spec in Hn'. split; [congruence|].
+  destruct (sy_kind y), (sy_kind u); try discriminate; congruence.
+Qed.
+
+Theorem unused_decl d before after p :
+  declares x k d ->
+  all_nodes no_use p ->
+  all_nodess no_use (napp before (NCons d after)) ->
+  occ anywhere (NStmtList (napp before (NCons d after))) p -> check p <> [].
+Proof.
+  intros Hd Ha Hcs Ho.
+  apply (reach re_caps max_re used_ok no_use anywhere (NStmtList (napp before (NCons d after))));
+    auto using used_walk, used_walks.
+  - intros n s s1 _ Hn Hs E. pose proof (used_pre n s Hn Hs) as H. rewrite E in H. exact H.
+  - intros s Hs. rewrite walk_eq. cbn [NameCheck.pre negb body NameCheck.post].
+    set (s0 := push_scope s []).
+    assert (used_ok s0) as Hs0 by exact Hs.
+    pose proof (used_walks _ s0 Hcs Hs0) as Hend.
+    rewrite walks_app, walks_cons in *.
+    set (s1 := walks before s0) in *.
+    assert (exists top rest, scopes s1 = top :: rest) as (top & rest & Ht).
+    { destruct (grow_walks before s0 [] (scopes s) eq_refl) as [ext He]. eauto. }
+    destruct (decl_sym x k d s1 top rest Hd Ht) as [He|(y & ext & Hy & Hn & Hk)].
+    + apply le_ne with (s := walk d s1); [|exact He].
+      eapply le_trans; [apply le_walks|]. eapply le_trans; [apply le_check_symtab|]. apply le_same. reflexivity.
+    + destruct (grow_walks after _ _ _ Hy) as [ext2 He2].
+      set (s2 := walks after (walk d s1)) in *.
+      assert (errs (check_symtab s2) <> []) as Hc.
+      { apply (check_symtab_err s2 y).
+        - unfold top_scope. rewrite He2. cbn [hd]. apply in_or_app. right. apply in_or_app. right. left. reflexivity.
+        - apply not_used; assumption.
+        - congruence. }
+      exact Hc.
+  - repeat split; constructor.
+Qed.
+
+End Unused.
+
 End Defects.
